@@ -135,10 +135,24 @@ MIDS = {
     "del-name-then-attr": ["z8 = 0", "del z8, {n}.a"],
     "del-nested-tuple-subscript": ["z8 = 0", "del (z8, ({n}[0], {n}.a))"],
     # stores into a part of the object are no rebinding either (and must not disturb anything)
+    # `except E as <the same name>` in the same scope: the earlier binding is not forgotten when the
+    # handler ends (statically the name may still be bound; CPython keeps the value when the handler
+    # did not run and raises NameError when it did - Python behaviour either way, never a command)
+    "except-reuse-not-taken": ["try:", IND + "pass", "except XE as {n}:", IND + "pass"],
+    "except-reuse-taken": ["try:", IND + 'raise XE("e")', "except XE as {n}:", IND + "pass"],
+    "except-reuse-second-handler": ["try:", IND + "pass", "except KeyError as z8:", IND + "pass", "except XE as {n}:", IND + "pass"],
+    "except-reuse-tuple-finally": ["try:", IND + "pass", "except (XE, KeyError) as {n}:", IND + "pass", "finally:", IND + "pass"],
+    "except-star-reuse-not-taken": ["try:", IND + "pass", "except* XE as {n}:", IND + "pass"],
+    "except-reuse-nested-in-if": ["if 1:", IND + "try:", IND * 2 + "pass", IND + "except XE as {n}:", IND * 2 + "pass"],
+    "except-reuse-in-else-of-try": ["try:", IND + "pass", "except KeyError:", IND + "pass", "else:", IND + "try:", IND * 2 + "pass", IND + "except XE as {n}:", IND * 2 + "pass"],
     "store-subscript": ["{n}[0] = 0"],
     "store-subscript-aug": ["{n}[0] += 1"],
 }
-PART_DEL_MIDS = [k for k in MIDS if k.startswith("del-") or k.startswith("store-")]
+PART_DEL_MIDS = [k for k in MIDS if k.startswith("del-") or k.startswith("store-") or k.startswith("except-")]  # same-scope interludes that keep the binding
+# interludes after which CPython itself reports the name unbound AT THE USE although it is bound
+# earlier in the same scope of the same source: still judged (tree equals ast.parse, NameError on both
+# sides, no spawn) instead of being dropped by the all-names-defined precondition
+STATIC_BOUND_MIDS = {"except-reuse-taken"}
 MID_ORDER = list(MIDS)
 
 # --------------------------------------------------------------------------------------- BINDERS
@@ -231,6 +245,21 @@ _b("param-kwonly-default", block=f"def p9(*z, {{n}}={MK}):", post=["p9()"], fami
 _b("param-vararg", block="def p9(*{n}):", post=[f"p9({MK})"], family="param")
 _b("param-kwarg", block="def p9(**{n}):", post=[f"p9(z={MK})"], family="param")
 _b("param-annotated", block="def p9({n}: int) -> None:", post=[f"p9({MK})"], family="param")
+# the bound name is read inside a NESTED scope of the binder statement itself (analysed before the
+# statement ends, run after it): a class name inside its own methods, a def name inside its own body
+_b("class-in-method", ["class {n}:"], block=IND + "def m9(self):", post=["{n}().m9()"], family="selfref")
+_b("class-in-plain-function", ["class {n}:"], block=IND + "def m9():", post=["{n}.m9()"], family="selfref")
+_b("class-bases-in-method", ["class {n}(XC):"], block=IND + "def m9(self):", post=["{n}().m9()"], family="selfref")
+_b("class-in-second-method", ["class {n}:", IND + "t9 = 0", IND + "def a9(self):", IND * 2 + "pass"], block=IND + "def m9(self):", post=["{n}().m9()"], family="selfref")
+_b("class-in-nested-class-method", ["class {n}:", IND + "class K9:"], block=IND * 2 + "def m9(self):", post=["{n}.K9().m9()"], family="selfref")
+_b("class-in-method-nested-def", ["class {n}:", IND + "def m9(self):"], block=IND * 2 + "def g9():", post=[IND * 2 + "g9()", "{n}().m9()"], family="selfref")
+_b("class-in-lambda-attr", embed=["class {n}:", IND + "f9 = lambda self: {U}", "{n}().f9()"], family="selfref")
+_b("class-in-method-lambda-default", embed=["class {n}:", IND + "def m9(self, c9=lambda: {U}):", IND * 2 + "return c9()", "{n}().m9()"], family="selfref")
+_b("def-in-own-body", block="def {n}():", post=["{n}()"], family="selfref")
+_b("def-in-nested-def", ["def {n}():"], block=IND + "def g9():", post=[IND + "g9()", "{n}()"], family="selfref")
+_b("def-in-nested-class-method", ["def {n}():", IND + "class K9:"], block=IND * 2 + "def m9(self):", post=[IND + "K9().m9()", "{n}()"], family="selfref")
+_b("def-in-own-lambda", embed=["def {n}():", IND + "return (lambda: {U})()", "{n}()"], family="selfref")
+
 # embed binders share a line with the use: keep that line free of calls/strings (session globals
 # q = the value, xs = [value], xt = [(0, value)]) so that a wrong "not in scope" verdict is not hidden
 # by the subprocess re-parse of the line failing; the *-mk variants keep the mk("n") spelling.
@@ -409,7 +438,8 @@ def build(c, del_form=None, explicit=False):
     for idx, s in enumerate(lines):
         if s.strip() == mk:
             use_line = idx + 1
-    return {"src": src, "globals": sorted(set(g_names)), "locals": sorted(set(l_names)), "use_line": use_line, "name": name, "use_text": text}
+    return {"src": src, "globals": sorted(set(g_names)), "locals": sorted(set(l_names)), "use_line": use_line, "name": name, "use_text": text,
+            "static_bound": c["mid"] in STATIC_BOUND_MIDS and not c["i"] and B[c["b"]]["embed"] is None}
 
 
 def coords_key(c):
